@@ -70,7 +70,7 @@ BOUNDS = ("skeleton family of vf/tvio.py: types T, S<T; 2 (some skeletons 3) obj
           "nested quantifiers over a parameter, <, <=, > over nested +,-,*,/ terms); metric none / constant and fluent-dependent "
           "action costs / plan length / min- and max-final-value; identifiers: 8 naming schemes (quick: covering rows, thorough: "
           "all schemes x all constants); numeric leaves from {0,1,-3,5/2,1/8,10^9+1,3/10} (thorough + {-7/4,1/1024,10^10+1,2}); "
-          "4 Boolean initial patterns; bisimulation depth k = 2 (quick) / 3 (thorough); 2 durative programs x naming schemes x "
+          "4 Boolean initial patterns; per shard additional 'boundary' rows in which the comparison constants equal the initial value (c = x0), so that the boundary of < / <= is a reachable state; bisimulation depth k = 2 (quick) / 3 (thorough); 2 durative programs x naming schemes x "
           "constants and 2 timed-initial-effect programs, compared slot-wise")
 OUTSIDE = ("numeric literals are NOT symbolic: number -> text -> number realises under CrossHair (probed in the design phase), so "
            "the constants are the stated pool, not 'every rational'; rationals whose decimal expansion needs more than 10 significant "
@@ -261,10 +261,11 @@ def h_rt(ctx, sk, k, pool, rows, schemes=None, readers=None, flags=None):
     ni = ctx.choice("names", len(schemes))
     ii = ctx.choice("init", len(tvio.INIT_PATTERNS))
     cv = ctx.choice("consts", len(pl))
+    tie = ctx.choice("tie", 2)
     if rows is not None:
-        ctx.assume([ni, ii, cv] in rows)
+        ctx.assume([ni, ii, cv, tie] in rows)
     env = ctx.fresh_env()
-    vals = tvio.leaf_values(cv, pl, _int_pool(pl) if sk.get("ntype", "int") == "int" else None)
+    vals = tvio.leaf_values(cv, pl, _int_pool(pl) if sk.get("ntype", "int") == "int" else None, tie=bool(tie))
     flags = dict(flags or {})
     if which == "ai":
         # The ai-planning parser (third party) crashes on an action without :precondition and reads ':precondition ()' as
@@ -504,7 +505,10 @@ SKELETONS = [
 
 def _rows(n_schemes, n_init, n_consts, n):
     """covering rows (every scheme, every init pattern, every constant assignment at least once)"""
-    return [[i % n_schemes, (i // 2) % n_init, (i * 3 + i // n_consts) % n_consts] for i in range(n)]
+    rows = [[i % n_schemes, (i // 2) % n_init, (i * 3 + i // n_consts) % n_consts, 0] for i in range(n)]
+    # + boundary rows (tie: comparison constants equal to the initial value), one per 4 ordinary rows
+    rows += [[(3 * i + 1) % n_schemes, i % n_init, (2 * i) % n_consts, 1] for i in range(max(2, n // 4))]
+    return rows
 
 
 def shards(tier, seed):
